@@ -12,7 +12,14 @@ of the alphabet the real cursor is driven through the traces
     reuse     execute WARM_UP, description, execute, description, fetchall   (the cursor has described something else before)
     describe  describe(sql, params) on a fresh cursor, nothing executed before
 
-each on its own connection; statements that change state get a fresh instance per trace, state-preserving ones share one
+and, second part, through HISTORIES in which ONE cursor executes the same statement text again after what it returns has
+changed — other bound values of another type, USE SCHEMA / DATABASE towards same-named tables of another shape, session
+variables, ALTER TABLE ADD / DROP / RENAME COLUMN, CREATE OR REPLACE TABLE / VIEW in between (executed on the same cursor
+with or without reading description, or on another cursor) — or in which the caller mutates its parameter object after
+execute(); the final description is judged against the rows then handed out, the model's names / declared types of the
+final statement, and a fresh cursor of the same connection (C06.reexecute / C06.as_executed).
+
+Each trace runs on its own connection; statements that change state get a fresh instance per trace, state-preserving ones share one
 fixture instance per worker (guarded by the ground-truth digest).  The session context is taken immediately before and
 after every read, the raw-DuckDB digest (mc/observe) at the end of every trace and around describe().
 
@@ -30,6 +37,9 @@ Oracle clauses
                              any fetch
   C06.reexecute              on a cursor that executed and described another statement before, description is the one of
                              the statement executed last (= the description of the before trace) and the rows are its rows
+  C06.as_executed            after the caller changed (set / append / pop / clear) the list or dict it passed to execute(),
+                             description still describes the statement with the values bound at execute() time (= a fresh
+                             cursor executing the same text with those values) and can still be read
   C06.describe_available     describe(sql, params) returns (no exception) for a statement that executes successfully
   C06.describe_equal         describe(sql, params) == description after execute(sql, params)
   C06.describe_not_executed  describe leaves the digest and the session context unchanged (nothing was executed), and
@@ -52,7 +62,8 @@ Not demanded
 
 Class keys: `<kind>:<form>[:<type group>]` of the statement — the input shape, written next to each statement of the
 alphabet; `,at=<read points>` is appended only when some but not all read points fail.  C06.describe_available uses the
-single class `stmt=non_query` for every statement that is not a SELECT / WITH query (one root cause).
+single class `stmt=non_query` for every statement that is not a SELECT / WITH query (one root cause), and the single
+class `stmt=query,cursor=dict` for describe() called on a DictCursor.  Histories use `hist:<form>`.
 """
 from __future__ import annotations
 
@@ -616,6 +627,126 @@ TRACES = ("control", "before", "mid", "after", "dictmid", "reuse", "describe")
 WARM_UP = "select 'w' as warm, 1.5 as up"  # what a reused cursor executed and described before
 
 
+# ---- histories: ONE cursor executes the same statement text again after what it returns has changed -------------------------
+# steps (all on one connection):
+#   ("x",  sql, params)   execute on the cursor under test, then read description
+#   ("x-", sql, params)   execute on the cursor under test, description not read
+#   ("o",  sql, params)   execute on another cursor of the same connection
+#   ("d",  sql, params)   cursor_under_test.describe(sql, params)
+#   ("mut", op, ...)      the caller changes the parameter object it passed to the last "x"/"x-"/"d" step:
+#                         set0 <v> | setkey <k> <v> | append <v> | pop | clear
+# params: None | list | dict (the caller's own mutable object; the runner hands the cursor this very object) |
+#         "@same" (the object of the previous execute, as a caller with one bind buffer does).
+# The last step decides what is judged: after "x"/"x-" (+ "mut") the description of the cursor under test against the rows
+# it then hands out, against what the model knows of the final statement (names / ncols / decl) and against a fresh cursor
+# of the same connection executing the same text with the values bound at execute() time; after "d" the describe() result
+# against that fresh cursor's description.
+FIXTURE_HIST = [
+    "create table s2.t (a varchar, b number(10,2), c int)",
+    "insert into s2.t values ('y', 2.50, 3)",
+    "create schema db2.s1",
+    "create table db2.s1.t (x float)",
+    "insert into db2.s1.t values (0.5)",
+]
+HISTORIES: list = []
+_HIDS: set = set()
+SEL_T = "select * from t order by 1"
+
+
+def H(hid, form, steps, style="pyformat", names=None, ncols=None, decl=None):
+    assert hid not in _HIDS, hid
+    _HIDS.add(hid)
+    steps = [tuple(st) if st[0] == "mut" else (st + (None,))[:3] for st in steps]
+    HISTORIES.append({"hid": hid, "cls": f"hist:{form}", "style": style, "steps": steps, "names": names,
+                      "ncols": ncols if ncols is not None else (len(names) if names else None), "decl": decl, "volatile": False})
+
+
+def _build_histories():
+    # (a) the same text with other bound values, of another type
+    one = "select ? as x"
+    retypes = [
+        ("int_str", [1], ["one"]), ("int_float", [1], [1.5]), ("int_decimal", [1], [D("2.50")]), ("str_int", ["one"], [1]),
+        ("float_date", [1.5], [datetime.date(2020, 1, 2)]), ("none_str", [None], ["one"]), ("bool_int", [True], [7]),
+        ("decimal_datetime", [D("2.50")], [datetime.datetime(2020, 1, 2, 3, 4, 5)]),
+    ]
+    for lbl, p1, p2 in retypes:
+        H(f"retype_{lbl}", "params_retype", [("x", one, p1), ("x", one, p2)], style="qmark", names=["X"])
+    H("retype_three", "params_retype", [("x", one, [1]), ("x", one, ["one"]), ("x", one, [1.5])], style="qmark", names=["X"])
+    H("retype_first_unread", "params_retype", [("x-", one, [1]), ("x", one, ["one"])], style="qmark", names=["X"])
+    H("retype_tuple", "params_retype", [("x", one, (1,)), ("x", one, ("one",))], style="qmark", names=["X"])
+    H("retype_two_binds", "params_retype", [("x", "select a, ? as p from t where a = ?", ["k", 1]), ("x", "select a, ? as p from t where a = ?", [2.5, 2])],
+      style="qmark", names=["A", "P"], decl=["INT", None])
+    H("retype_bind_buffer", "params_retype", [("x", one, [1]), ("mut", "set0", "one"), ("x", one, "@same")], style="qmark", names=["X"])
+    H("retype_describe", "params_retype_describe", [("d", one, [1]), ("d", one, ["one"])], style="qmark", names=["X"])
+    H("retype_describe_after_execute", "params_retype_describe", [("x", one, [1]), ("d", one, ["one"])], style="qmark", names=["X"])
+    H("retype_pyformat", "params_retype_pyformat", [("x", "select %s as x", [1]), ("x", "select %s as x", ["one"])], names=["X"])
+    H("retype_pyformat_named", "params_retype_pyformat", [("x", "select %(v)s as x", {"v": 1}), ("x", "select %(v)s as x", {"v": 1.5})], names=["X"])
+    H("retype_cast", "params_retype", [("x", "select ?::varchar as x", [1]), ("x", "select ?::varchar as x", [1.5])], style="qmark", names=["X"])
+    # (b) the session context changes in between: same-named tables of another shape in another schema / database
+    s2 = dict(names=["A", "B", "C"], decl=["VARCHAR", "NUMBER(10,2)", "INT"])
+    for how in ("x-", "x", "o"):
+        H(f"use_schema_{how}", "use_schema", [("x", SEL_T), (how, "use schema s2"), ("x", SEL_T)], **s2)
+    H("use_schema_qualified", "use_schema", [("x", SEL_T), ("x-", "use schema db1.s2"), ("x", SEL_T)], **s2)
+    H("use_schema_back", "use_schema", [("x", SEL_T), ("x-", "use schema s2"), ("x", SEL_T), ("x-", "use schema s1"), ("x", SEL_T)],
+      names=["A", "B"], decl=["INT", "VARCHAR"])
+    H("use_schema_cols", "use_schema", [("x", "select a, b from t"), ("x-", "use schema s2"), ("x", "select a, b from t")],
+      names=["A", "B"], decl=["VARCHAR", "NUMBER(10,2)"])
+    H("use_schema_agg", "use_schema", [("x", "select max(a) as m from t"), ("x-", "use schema s2"), ("x", "select max(a) as m from t")],
+      names=["M"], decl=["VARCHAR"])
+    H("use_schema_describe", "use_schema_describe", [("d", SEL_T), ("x-", "use schema s2"), ("d", SEL_T)], **s2)
+    H("use_schema_first_unread", "use_schema", [("x-", SEL_T), ("x-", "use schema s2"), ("x", SEL_T)], **s2)
+    for how in ("x-", "o"):
+        H(f"use_database_{how}", "use_database", [("x", SEL_T), (how, "use database db2"), (how, "use schema s1"), ("x", SEL_T)], names=["X"], decl=["FLOAT"])
+    H("use_database_qualified_schema", "use_database", [("x", SEL_T), ("x-", "use schema db2.s1"), ("x", SEL_T)], names=["X"], decl=["FLOAT"])
+    H("use_schema_param", "use_schema", [("x", "select * from t where 1 = ?", [1]), ("x-", "use schema s2"), ("x", "select * from t where 1 = ?", [1])], style="qmark", **s2)
+    # session variables are session context too
+    H("variable_retype", "variable", [("x-", "set v = 1"), ("x", "select $v as x"), ("x-", "set v = 'one'"), ("x", "select $v as x")], names=["X"])
+    H("variable_table", "variable", [("x-", "set tb = 't'"), ("x", "select * from identifier($tb) order by 1"), ("x-", "set tb = 'u'"),
+                                      ("x", "select * from identifier($tb) order by 1")], names=["ID", "X", "F", "D"], decl=["INT", "NUMBER(10,2)", "FLOAT", "DATE"])
+    # (c) the catalog changes in between
+    sel = "select * from t order by a"
+    for how in ("x-", "x", "o"):
+        H(f"add_column_{how}", "alter_add_column", [("x", sel), (how, "alter table t add column c float"), ("x", sel)], names=["A", "B", "C"], decl=["INT", "VARCHAR", "FLOAT"])
+    H("add_column_filled", "alter_add_column", [("x", sel), ("x-", "alter table t add column c float"), ("x-", "update t set c = 0.5"), ("x", sel)],
+      names=["A", "B", "C"], decl=["INT", "VARCHAR", "FLOAT"])
+    H("add_column_describe", "alter_add_column_describe", [("d", sel), ("x-", "alter table t add column c float"), ("d", sel)], names=["A", "B", "C"], decl=["INT", "VARCHAR", "FLOAT"])
+    for how in ("x-", "o"):
+        H(f"drop_column_{how}", "alter_drop_column", [("x", sel), (how, "alter table t drop column b"), ("x", sel)], names=["A"], decl=["INT"])
+        H(f"rename_column_{how}", "alter_rename_column", [("x", sel), (how, "alter table t rename column b to c"), ("x", sel)], names=["A", "C"], decl=["INT", "VARCHAR"])
+        H(f"replace_table_{how}", "replace_table", [("x", SEL_T), (how, "create or replace table t (x float, y int)"), (how, "insert into t values (1.5, 2)"), ("x", SEL_T)],
+          names=["X", "Y"], decl=["FLOAT", "INT"])
+    H("replace_table_ctas", "replace_table", [("x", SEL_T), ("x-", "create or replace table t as select b, a, 1.5 as k from src"), ("x", SEL_T)], names=["B", "A", "K"])
+    H("drop_create_table", "replace_table", [("x", SEL_T), ("x-", "drop table t"), ("x-", "create table t (x date)"), ("x-", "insert into t values ('2020-01-02')"), ("x", SEL_T)],
+      names=["X"], decl=["DATE"])
+    H("replace_view", "replace_view", [("x", "select * from vw order by 1"), ("x-", "create or replace view vw as select b, a, 1.5 as k from t"), ("x", "select * from vw order by 1")],
+      names=["B", "A", "K"])
+    H("replace_table_param", "replace_table", [("x", "select * from t where 1 = ?", [1]), ("x-", "create or replace table t (x float, y int)"), ("x-", "insert into t values (1.5, 2)"),
+                                               ("x", "select * from t where 1 = ?", [1])], style="qmark", names=["X", "Y"], decl=["FLOAT", "INT"])
+    H("rename_table_swap", "replace_table", [("x", SEL_T), ("x-", "alter table t rename to t_old"), ("x-", "alter table u rename to t"), ("x", SEL_T)],
+      names=["ID", "X", "F", "D"], decl=["INT", "NUMBER(10,2)", "FLOAT", "DATE"])
+    # the same status-row statement twice, and a status row after a query of the same cursor
+    H("same_insert_twice", "same_dml", [("x", "insert into t values (7, 'q')"), ("x", "insert into t values (7, 'q')")])
+    H("same_select_twice", "same_query", [("x", sel), ("x", sel)], names=["A", "B"], decl=["INT", "VARCHAR"])
+    # (d) the caller changes its parameter object after execute() and before description is read
+    muts = [("set0_str", ("mut", "set0", "one")), ("set0_float", ("mut", "set0", 1.5)), ("append", ("mut", "append", 2)), ("pop", ("mut", "pop")), ("clear", ("mut", "clear"))]
+    for lbl, m in muts:
+        H(f"mutate_{lbl}", "mutate_params", [("x-", one, [1]), m], style="qmark", names=["X"])
+        H(f"mutate_read_{lbl}", "mutate_params", [("x", one, [1]), m], style="qmark", names=["X"])
+    H("mutate_two_binds", "mutate_params", [("x", "select ? as x, x as amount from u where x = ?", [D("2.25"), D("2.25")]), ("mut", "set0", 2.5)], style="qmark", names=["X", "AMOUNT"], decl=[None, "NUMBER(10,2)"])
+    H("mutate_where_clear", "mutate_params", [("x-", "select id, f from u where id = ?", [2]), ("mut", "clear")], style="qmark", names=["ID", "F"], decl=["INT", "FLOAT"])
+    H("mutate_wide_int", "mutate_params", [("x-", one, [2**70]), ("mut", "set0", "one")], style="qmark", names=["X"])
+    H("mutate_dml_clear", "mutate_params_dml", [("x-", "insert into t values (?, ?)", [7, "q"]), ("mut", "clear")], style="qmark")
+    H("mutate_dml_set0", "mutate_params_dml", [("x-", "update t set b = ? where a = ?", ["k", 1]), ("mut", "set0", 5)], style="qmark")
+    H("mutate_describe", "mutate_params_describe", [("x-", one, [1]), ("mut", "set0", "one"), ("d", one, [1])], style="qmark", names=["X"])
+    H("mutate_pyformat_list", "mutate_params_pyformat", [("x-", "select %s as x", [1]), ("mut", "set0", "one")], names=["X"])
+    H("mutate_pyformat_dict", "mutate_params_pyformat", [("x-", "select %(v)s as x", {"v": 1}), ("mut", "setkey", "v", "one")], names=["X"])
+    H("mutate_pyformat_dict_clear", "mutate_params_pyformat", [("x", "select %(v)s as x", {"v": 1}), ("mut", "clear")], names=["X"])
+
+
+_build_histories()
+BY_HID = {h["hid"]: h for h in HISTORIES}
+
+
 def statements(tier):
     return [s for s in STATEMENTS if tier != "quick" or not s["thorough"]]
 
@@ -718,6 +849,13 @@ def run_trace(st, trace):
                 out["describe"] = _meta(cur.describe(st["sql"]) if params is None else cur.describe(st["sql"], params))
             except Exception as e:  # noqa: BLE001
                 out["describe_err"] = _err(e)
+            if st["is_query"]:
+                # describe() is a method of every cursor class: the same call on a DictCursor
+                try:
+                    dc = conn.cursor(DictCursor)
+                    out["describe_dict"] = _meta(dc.describe(st["sql"]) if params is None else dc.describe(st["sql"], params))
+                except Exception as e:  # noqa: BLE001
+                    out["describe_dict_err"] = _err(e)
             s1 = _session(conn)
             hold["final"] = _digest(fs)
             out["digest_same"] = g0 == hold["final"]
@@ -782,6 +920,53 @@ def _short(meta):
     return [(m[0], M.code_name(m[1]), m[4], m[5]) for m in meta]
 
 
+def _judge_entries(st, desc, rows, drows):
+    """length / names / type_value / type_declared of one description against tuple rows, DictCursor rows and what the
+    model knows about the statement (st: names, ncols, decl, volatile).  Shared by statements and histories."""
+    res = []
+    names = [m[0] for m in desc]
+    # (2) length
+    widths = sorted({len(r) for r in rows})
+    exp_n = st["ncols"]
+    bad = (bool(widths) and widths != [len(desc)]) or (exp_n is not None and exp_n != len(desc))
+    if widths or exp_n is not None:
+        res.append(("C06.length", bad, "", {"description": names, "row_widths": widths, "select_items": exp_n}))
+    # (2) names
+    if drows:
+        keys = sorted({tuple(r.keys()) for r in drows})
+        bad = keys != [tuple(M.dict_keys_of(names))]
+        res.append(("C06.names", bad, "", {"description": names, "dict_keys": [list(k) for k in keys]}))
+    elif st["names"] is not None and all(n is not None for n in st["names"]) and not rows:
+        bad = names != st["names"]
+        res.append(("C06.names", bad, "", {"description": names, "select_list_names": st["names"]}))
+    # (3) values
+    if rows and all(len(r) == len(desc) for r in rows):
+        vbad = {}
+        nonnull = 0
+        for j, m in enumerate(desc):
+            for r in rows:
+                if r[j] is None:
+                    continue
+                nonnull += 1
+                f = M.value_consistency(r[j], m[1], m[4], m[5])
+                if f:
+                    vbad[f"{j}:{m[0]}"] = {"entry": _short([m])[0], "pytype": M.pytype(r[j]), "value": r[j] if not st["volatile"] else "<volatile>", "fails": sorted(f)}
+                    break
+        if nonnull:
+            res.append(("C06.type_value", bool(vbad), "", vbad))
+    # (3) declared
+    if st["decl"] and len(st["decl"]) == len(desc):
+        dbad = {}
+        for j, (m, ty) in enumerate(zip(desc, st["decl"])):
+            if ty is None:
+                continue
+            f = M.declared_mismatch(ty, m[1], m[4], m[5])
+            if f:
+                dbad[f"{j}:{m[0]}"] = {"declared": ty, "entry": _short([m])[0], "fails": sorted(f)}
+        res.append(("C06.type_declared", bool(dbad), "", dbad))
+    return res
+
+
 def judge(st, tr):
     """All clauses for one statement from its traces.  Returns [(clause, failed, cls_suffix, detail)] — one entry per
     clause that was applicable (membership), failed or not."""
@@ -830,47 +1015,7 @@ def judge(st, tr):
             bad = ru["desc"] != desc or not _rows_equal(ru["rows"], rows, st["volatile"])
             res.append(("C06.reexecute", bad, "", {"after_reuse": _short(ru["desc"]), "fresh_cursor": _short(desc), "rows": ru["rows"][:2]} if bad else None))
 
-        names = [m[0] for m in desc]
-        # (2) length
-        widths = sorted({len(r) for r in rows})
-        exp_n = st["ncols"]
-        bad = (bool(widths) and widths != [len(desc)]) or (exp_n is not None and exp_n != len(desc))
-        if widths or exp_n is not None:
-            res.append(("C06.length", bad, "", {"description": names, "row_widths": widths, "select_items": exp_n}))
-        # (2) names
-        drows = tr["dictmid"]["rows"]
-        if drows:
-            keys = sorted({tuple(r.keys()) for r in drows})
-            bad = keys != [tuple(M.dict_keys_of(names))]
-            res.append(("C06.names", bad, "", {"description": names, "dict_keys": [list(k) for k in keys]}))
-        elif st["names"] is not None and all(n is not None for n in st["names"]) and not rows:
-            bad = names != st["names"]
-            res.append(("C06.names", bad, "", {"description": names, "select_list_names": st["names"]}))
-        # (3) values
-        if rows and all(len(r) == len(desc) for r in rows):
-            vbad = {}
-            nonnull = 0
-            for j, m in enumerate(desc):
-                for r in rows:
-                    if r[j] is None:
-                        continue
-                    nonnull += 1
-                    f = M.value_consistency(r[j], m[1], m[4], m[5])
-                    if f:
-                        vbad[f"{j}:{m[0]}"] = {"entry": _short([m])[0], "pytype": M.pytype(r[j]), "value": r[j] if not st["volatile"] else "<volatile>", "fails": sorted(f)}
-                        break
-            if nonnull:
-                res.append(("C06.type_value", bool(vbad), "", vbad))
-        # (3) declared
-        if st["decl"] and len(st["decl"]) == len(desc):
-            dbad = {}
-            for j, (m, ty) in enumerate(zip(desc, st["decl"])):
-                if ty is None:
-                    continue
-                f = M.declared_mismatch(ty, m[1], m[4], m[5])
-                if f:
-                    dbad[f"{j}:{m[0]}"] = {"declared": ty, "entry": _short([m])[0], "fails": sorted(f)}
-            res.append(("C06.type_declared", bool(dbad), "", dbad))
+        res.extend(_judge_entries(st, desc, rows, tr["dictmid"]["rows"]))
 
     # (4) describe
     dt = tr["describe"]
@@ -884,6 +1029,12 @@ def judge(st, tr):
     if dt.get("autocommit_after") is False:
         ne["transaction"] = "a transaction is open after describe()"
     res.append(("C06.describe_not_executed", bool(ne), "", ne))
+    if "describe" in dt and st["is_query"]:
+        # one class for the cursor kind (one root cause), only where the tuple cursor's describe() works
+        res.append(("C06.describe_available", "describe_dict" not in dt, "=cursor_dict", dt.get("describe_dict_err")))
+        if "describe_dict" in dt:
+            bad = dt["describe_dict"] != dt["describe"]
+            res.append(("C06.describe_equal", bad, "=cursor_dict", {"dict_cursor": _short(dt["describe_dict"]), "tuple_cursor": _short(dt["describe"])} if bad else None))
     if "describe" in dt and desc is not None:
         bad = dt["describe"] != desc
         res.append(("C06.describe_equal", bad, "", {"describe": _short(dt["describe"]), "description": _short(desc),
@@ -910,7 +1061,184 @@ def _rows_equal(got, exp, volatile):
     return True
 
 
+# ---- histories: real side and oracle ------------------------------------------------------------------------------------------------
+
+
+def _apply_mut(obj, m):
+    op = m[1]
+    if op == "set0":
+        obj[0] = m[2]
+    elif op == "setkey":
+        obj[m[2]] = m[3]
+    elif op == "append":
+        obj.append(m[2])
+    elif op == "pop":
+        obj.pop()
+    elif op == "clear":
+        obj.clear()
+    else:
+        raise AssertionError(m)
+
+
+def run_history(h, kind):
+    """Drive one history on a fresh instance with a tuple / dict cursor under test; plain dict out, no verdicts."""
+    import copy
+
+    from snowflake.connector.cursor import DictCursor, SnowflakeCursor
+
+    out = {"kind": kind}
+    fs = _new_instance(False, False)
+    try:
+        conn = _connect(fs, h["style"])
+        setup = conn.cursor()
+        for q in FIXTURE_HIST:
+            setup.execute(q)
+        cur = conn.cursor(DictCursor if kind == "dict" else SnowflakeCursor)
+        other = conn.cursor()
+        last = None  # (step kind, sql, the caller's object, the values as bound at call time)
+        for i, stp in enumerate(h["steps"]):
+            if stp[0] == "mut":
+                _apply_mut(last[2], stp)
+                continue
+            k, sql, params = stp
+            obj = last[2] if isinstance(params, str) and params == "@same" else copy.deepcopy(params)
+            bound = copy.deepcopy(obj)
+            try:
+                if k == "d":
+                    out["described"] = _meta(cur.describe(sql) if obj is None else cur.describe(sql, obj))
+                    last = (k, sql, obj, bound)
+                    continue
+                c = other if k == "o" else cur
+                if obj is None:
+                    c.execute(sql)
+                else:
+                    c.execute(sql, obj)
+            except Exception as e:  # noqa: BLE001
+                if k == "d" and i == len(h["steps"]) - 1:
+                    out["describe_err"] = _err(e)
+                    last = (k, sql, obj, bound)
+                    continue
+                out["step_err"] = (i, _err(e))
+                return out
+            if k != "o":
+                last = (k, sql, obj, bound)
+            if k == "x" and i < len(h["steps"]) - 1:
+                with contextlib.suppress(Exception):  # judged where this statement is the last one, not here
+                    cur.description  # noqa: B018
+        out["caller_object"] = repr(last[2])
+        if last[0] != "d":
+            s1 = _session(conn)
+            try:
+                out["desc"] = _meta(cur.description)
+                out["desc2"] = _meta(cur.description)
+            except Exception as e:  # noqa: BLE001
+                out["desc_err"] = _err(e)
+            out["session_same"] = s1 == _session(conn)
+            try:
+                out["rows"] = cur.fetchall()
+            except Exception as e:  # noqa: BLE001
+                out["step_err"] = ("fetch", _err(e))
+                return out
+        # reference: a fresh cursor of the same connection, the same text, the values as bound at execute() time
+        ref = conn.cursor(DictCursor if kind == "dict" else SnowflakeCursor)
+        try:
+            if last[3] is None:
+                ref.execute(last[1])
+            else:
+                ref.execute(last[1], last[3])
+            out["ref_desc"] = _meta(ref.description)
+            out["ref_rows"] = ref.fetchall()
+        except Exception as e:  # noqa: BLE001
+            out["ref_err"] = _err(e)
+    finally:
+        _close(fs)
+    return out
+
+
+def judge_history(h, rt, rd):
+    """[(clause, failed, detail)] for one history from its tuple-cursor run rt and dict-cursor run rd."""
+    res = []
+    last = [s for s in h["steps"] if s[0] != "mut"][-1]
+    mutated = h["steps"][-1][0] == "mut" or any(s[0] == "mut" for s in h["steps"])
+    cmp_clause = "C06.as_executed" if mutated else "C06.reexecute"
+    if last[0] == "d":
+        res.append(("C06.describe_available", "described" not in rt or "described" not in rd, rt.get("describe_err") or rd.get("describe_err")))
+        if "described" in rt:
+            st = dict(h, volatile=False)
+            # describe() has no rows of its own: judged against the model and against the fresh cursor's description
+            res.extend((c, f, d) for c, f, _, d in _judge_entries(st, rt["described"], [], []) if c in ("C06.length", "C06.type_declared"))
+            if h["names"] and all(h["names"]):
+                names = [m[0] for m in rt["described"]]
+                res.append(("C06.names", names != h["names"], {"describe": names, "select_list_names": h["names"]}))
+            if "ref_desc" in rt:
+                bad = rt["described"] != rt["ref_desc"]
+                res.append(("C06.describe_equal", bad, {"describe": _short(rt["described"]), "description_after_execute": _short(rt["ref_desc"])} if bad else None))
+        return res
+    bad_av = {r["kind"]: r["desc_err"] for r in (rt, rd) if "desc" not in r}
+    res.append(("C06.available", bool(bad_av), bad_av))
+    res.append(("C06.read_session", not (rt["session_same"] and rd["session_same"]), None))
+    if "desc" in rt:
+        desc, rows = rt["desc"], rt["rows"]
+        res.append(("C06.read_point", rt["desc2"] != desc, {"first": _short(desc), "second": _short(rt["desc2"])}))
+        res.extend((c, f, d) for c, f, _, d in _judge_entries(dict(h, volatile=False), desc, rows, rd["rows"] if "desc" in rd else []))
+        if rows and h["names"] and all(h["names"]):
+            # the select list of the final statement names every column: what the description must say, rows or not
+            names = [m[0] for m in desc]
+            if names != h["names"]:
+                res.append(("C06.names", True, {"description": names, "select_list_names": h["names"]}))
+        if "ref_desc" in rt:
+            is_q = last[1].lstrip().lower().startswith(("select", "with"))
+            bad = desc != rt["ref_desc"] or (is_q and not _rows_equal(rows, rt["ref_rows"], False))
+            res.append((cmp_clause, bad, {"cursor_under_test": _short(desc), "fresh_cursor": _short(rt["ref_desc"]), "rows": rows[:2], "fresh_rows": rt["ref_rows"][:2],
+                                          "caller_object_now": rt["caller_object"]} if bad else None))
+    if "desc" in rd and "ref_desc" in rd:
+        bad = rd["desc"] != rd["ref_desc"]
+        res.append((cmp_clause, bad, {"cursor_under_test": _short(rd["desc"]), "fresh_cursor": _short(rd["ref_desc"]), "cursor": "dict"} if bad else None))
+    return res
+
+
+def check_history(hid, acc: core.Acc, tier):
+    h = BY_HID[hid]
+    rt = run_history(h, "tuple")
+    # describe() on a DictCursor is judged once per statement (class stmt=query,cursor=dict), not per history
+    rd = run_history(h, "dict") if not any(s[0] == "d" for s in h["steps"]) else rt
+    acc.count("evaluations", 2)
+    acc.count("traces", 2)
+    acc.count("histories")
+    nsteps = len(h["steps"])
+    acc.count("transitions", 2 * (nsteps + 3))  # steps + description, description, fetchall
+    acc.add("states", ("hist", hid, "tuple"))
+    acc.add("states", ("hist", hid, "dict"))
+    if "step_err" in rt or "step_err" in rd or "ref_err" in rt or "ref_err" in rd:
+        # a statement of the history does not execute: outside the property, counted and never judged
+        acc.count("histories_not_executed")
+        why = rt.get("step_err") or rd.get("step_err") or rt.get("ref_err") or rd.get("ref_err")
+        acc.note(f"history not executed: {hid}: {why}")
+        acc.obs((hid, "not_executed", why))
+        return None
+    verdicts = []
+    merged: dict = {}
+    for clause, failed, detail in judge_history(h, rt, rd):
+        m = merged.setdefault(clause, [False, []])
+        m[0] = m[0] or failed
+        if failed:
+            m[1].append(detail)
+    for clause, (failed, details) in sorted(merged.items()):
+        acc.member(clause, h["cls"], failed)
+        verdicts.append((clause, failed))
+        if failed:
+            acc.violation(clause, h["cls"], {"history": h["steps"], "style": h["style"], "observed": details}, {"hid": hid})
+    acc.obs((hid, verdicts, rt.get("desc"), rt.get("rows"), rt.get("described")))
+    acc.outcome((h["cls"], tuple(_short(rt.get("desc") or rt.get("described") or []))))
+    acc.nontrivial(hid)
+    if hid in ("use_schema_x-", "mutate_clear"):
+        acc.sample({"history": h["steps"], "description": _short(rt.get("desc") or []), "rows": (rt.get("rows") or [])[:1]})
+    return verdicts
+
+
 def check_statement(sid, acc: core.Acc, tier):
+    if sid.startswith("H:"):
+        return check_history(sid[2:], acc, tier)
     st = BY_SID[sid]
     tr = {}
     for trace in TRACES:
@@ -953,7 +1281,7 @@ def check_statement(sid, acc: core.Acc, tier):
     verdicts = judge(st, tr)
     obs = []
     for clause, failed, suffix, detail in verdicts:
-        cls = "stmt=non_query" if suffix == "=non_query" else st["cls"] + suffix
+        cls = {"=non_query": "stmt=non_query", "=cursor_dict": "stmt=query,cursor=dict"}.get(suffix) or st["cls"] + suffix
         acc.member(clause, cls, failed)
         obs.append((clause, failed))
         if failed:
@@ -985,9 +1313,12 @@ def run(ctx: core.Ctx):
         "state-preserving statements share one fixture instance per worker; the raw-DuckDB digest is compared with the "
         "fixture digest after every trace",
     ]
-    res = ctx.pmap(check_statement, [s["sid"] for s in sts], chunk=8)
+    res = ctx.pmap(check_statement, [s["sid"] for s in sts] + ["H:" + h["hid"] for h in HISTORIES], chunk=8)
     ctx.exhaustive = True
-    ctx.extra["bound"] = f"complete alphabet of the tier: {len(sts)} statements x {len(TRACES)} traces ({len(READ_POINTS)} read points)"
+    ctx.extra["bound"] = (
+        f"complete alphabet of the tier: {len(sts)} statements x {len(TRACES)} traces ({len(READ_POINTS)} read points) + "
+        f"{len(HISTORIES)} same-text re-execution / parameter-mutation histories x 2 cursor kinds"
+    )
     ctx.extra["alphabet"] = {
         "statements": len(sts),
         "kinds": sorted({s["kind"] for s in sts}),
@@ -996,11 +1327,28 @@ def run(ctx: core.Ctx):
         "forms_per_type": [f[0] for f in FORMS],
         "read_points": list(READ_POINTS),
         "traces": list(TRACES),
+        "histories": len(HISTORIES),
+        "history_classes": sorted({h["cls"] for h in HISTORIES}),
     }
     ctx.extra["clauses_evaluated"] = sorted({c for _, r in res if r for c, _ in r})
 
 
 def replay(payload):
+    if "hid" in payload["replay"]:
+        h = BY_HID[payload["replay"]["hid"]]
+        print("history:", h["steps"], "style:", h["style"], "class:", h["cls"])
+        rt = run_history(h, "tuple")
+        rd = run_history(h, "dict") if not any(s[0] == "d" for s in h["steps"]) else rt
+        if "step_err" in rt or "ref_err" in rt:
+            print("not executed:", rt.get("step_err") or rt.get("ref_err"))
+            return False
+        print("description:", _short(rt["desc"]) if "desc" in rt else rt.get("desc_err") or rt.get("described"), "rows:", (rt.get("rows") or [])[:2])
+        print("fresh cursor:", _short(rt.get("ref_desc") or []), "rows:", (rt.get("ref_rows") or [])[:2])
+        bad = False
+        for clause, failed, detail in judge_history(h, rt, rd):
+            print(f"  {clause:28s} {'FAIL' if failed else 'ok'}  {detail if failed else ''}")
+            bad = bad or (failed and clause == payload["clause"])
+        return bad
     sid = payload["replay"]["sid"]
     st = BY_SID[sid]
     print("statement:", st["sql"], "params:", st["params"], "pre:", st["pre"], "class:", st["cls"])
